@@ -194,6 +194,15 @@ def hl_obs(tier):
     h('botp', 'H_BOTP', blk + BOTP + HMACS, ['botpHOTPRand', 'botpHOTPVerify', 'botpTOTPRand', 'botpTOTPVerify', 'botpOCRARand'], [], [(32, 6, 0), (16, 8, 0)], unwind=140, fs=2048, libc=True)
     return obs
 
+def _decoders(tier):
+    # DESIGN.md C07: decoders are shared with C08 (every read inside the input, every write inside the exact-size output)
+    from props import C08
+    out = []
+    for o in C08.obligations(tier):
+        if o.name.startswith('c08_der_') or o.name.startswith('c08_apdu') or o.name.startswith('c08_b64') or o.name.startswith('c08_hex'):
+            o = Ob(**dict(o)); o['name'] = o.name.replace('c08_', 'c07_dec_'); out.append(o)
+    return out
+
 def obligations(tier):
     obs = keep_obs(tier) + kernel_obs(tier) + hl_obs(tier)
     try:
@@ -201,4 +210,5 @@ def obligations(tier):
         obs += deep_obligations(tier)
     except ImportError:
         pass
-    return [o for o in obs if tier in o.tiers]
+    _r = [o for o in obs if tier in o.tiers]
+    return list(_r) + _decoders(tier)
